@@ -80,10 +80,6 @@ theorem decodeFrag_dataPacket (id : Nat) (hid : id < 128) (last : Bool) (unknown
 
 /-! ### the challenge -/
 
-theorem natDec_length (n k : Nat) (hk : 0 < k) (h : n < 10 ^ k) : (natDec n).length ≤ k := by
-  rw [natDec_eq, List.length_map]
-  exact (Nat.length_toDigits_le_iff (by omega) hk).mpr h
-
 theorem intDec_length (c : Int) (hlo : -(2 ^ 31 : Int) ≤ c) (hhi : c < 2 ^ 31) : (intDec c).length ≤ 11 := by
   cases c with
   | ofNat n =>
